@@ -64,8 +64,12 @@ pub fn stroke_rect<T: Copy>(mut mask: NdTensorViewMut<T, 2>, rect: Rect, value: 
 
 /// Fill all points inside `rect` with the value `value`.
 pub fn fill_rect<T: Copy>(mut mask: NdTensorViewMut<T, 2>, rect: Rect, value: T) {
-    for y in rect.top()..rect.bottom() {
-        for x in rect.left()..rect.right() {
+    // Clip the rect to the image.
+    let rows = i32::try_from(mask.rows()).unwrap_or(i32::MAX);
+    let cols = i32::try_from(mask.cols()).unwrap_or(i32::MAX);
+
+    for y in rect.top().max(0)..rect.bottom().min(rows) {
+        for x in rect.left().max(0)..rect.right().min(cols) {
             mask[[y as usize, x as usize]] = value;
         }
     }
